@@ -194,8 +194,10 @@ def aggregate(results):
             nontriv += 1
             digests.add(s["digest"][:16])
         for v in s["violations"]:
-            e = viol.setdefault(v["sig"], {"first": s["i"], "msg": v["msg"], "clause": v["clause"], "runs": 0})
+            e = viol.setdefault(v["sig"], {"first": s["i"], "msg": v["msg"], "clause": v["clause"], "runs": 0, "some": []})
             e["runs"] += 1
+            if len(e["some"]) < 6:
+                e["some"].append(s["i"])
     agg["distinct_nontrivial"] = len(digests)
     agg["nontrivial_runs"] = nontriv
     agg["distinct_interleavings"] = len(coarse)
@@ -364,18 +366,33 @@ def main(argv=None):
         vio_out = []
         rc = 0
         for n_done, (sig, e) in enumerate(unknown):
-            rng = Rng(derive(seed, mod.PROP, e["first"]))
-            case = mod.generate(rng, a.tier)
-            evals = 0
-            if n_done < 6:
-                case, evals = shrink(mod, case, sig)
-            out = mod.execute(case)
-            msg = next((v["msg"] for v in out.violations if v["sig"] == sig), e["msg"])
-            path = write_replay(mod.PROP, seed, e["first"], sig, msg, case, evals)
-            ok, txt = fresh_replay(mod.PROP, path)
+            # a violation counts only once its replay file reproduces it in a fresh interpreter.  State that the
+            # code under test keeps in the process (a class-level cache, a module global) can make a run fail only
+            # because of the runs before it; such a run does not reproduce alone, so further candidates are tried.
+            ok, path, msg, txt = False, None, e["msg"], ""
+            for cand_i in (e.get("some") or [e["first"]]):
+                case0 = mod.generate(Rng(derive(seed, mod.PROP, cand_i)), a.tier)
+                attempts = []
+                if n_done < 6:
+                    attempts.append(shrink(mod, case0, sig))
+                attempts.append((case0, 0))
+                for case, evals in attempts:
+                    try:
+                        out = mod.execute(case)
+                    except Exception:
+                        continue
+                    msg = next((v["msg"] for v in out.violations if v["sig"] == sig), e["msg"])
+                    path = write_replay(mod.PROP, seed, cand_i, sig, msg, case, evals)
+                    ok, txt = fresh_replay(mod.PROP, path)
+                    if ok:
+                        e["first"] = cand_i
+                        break
+                if ok:
+                    break
             if not ok:
                 print(txt)
-                print(f"HARNESS-ERROR property={mod.PROP} replay {path} did not reproduce {sig}")
+                print(f"HARNESS-ERROR property={mod.PROP} no replay of {sig} reproduces in a fresh interpreter "
+                      f"(runs tried: {e.get('some')}); the failure depends on state carried between runs of one process")
                 return 2
             print(f"violation {sig} in {e['runs']} runs (first run {e['first']}): {msg}")
             print(f"VIOLATION property={mod.PROP} replay={path}")
